@@ -303,6 +303,18 @@ pub fn evaluate_single(cfg: &RunCfg, rec: &RunRecord) -> (Vec<Finding>, Facts) {
     for d in &dl {
         let Some(o) = d.obs else { continue };
         let a = d.actual.expect("obs implies actual");
+        if cfg.tail > 0 && a >= len as i128 && a < (len + cfg.tail) as i128 {
+            // a non-fused source: its sequence ended with the first None
+            out.push(f(
+                "C01",
+                "delivered-beyond-the-source-sequence",
+                format!(
+                    "{} delivered raw={}, which the wrapped iterator yields only if it is polled again after it has returned None: the source sequence has {len} elements",
+                    describe_call(rec, d.call),
+                    o.raw
+                ),
+            ));
+        }
         if a < 0 || a >= len as i128 {
             let p = if kind.is_range() { "C16" } else { "C02" };
             out.push(f(
